@@ -15,7 +15,8 @@
                             (mutually: `C15_seq_count`, `C15_par_count`, `C15_xpar_count`);
   * `C15_init_count`, `C15_inject_count` — every initialiser combination yields exactly `k`;
   * `C15_gp_generation_size` — every generation of a run of any length has the configured size;
-  * `C15_evaluate_count`  — `EvaluateStep` (not a sizing step) hands through its whole input once.
+  * `C15_evaluate_count`  — `EvaluateStep` (not a sizing step) hands through its whole input once;
+  * `C15_pinned_*_witness` — the counterexamples found on the tree before the `fix:` commits.
 -/
 import GEVerif.Model.Steps
 import GEVerif.Lemmas.Steps
@@ -347,6 +348,27 @@ theorem C15_gp_generation_size {σ : Type} (src : Source σ) (hs : src.Sound) (c
     rcases List.mem_cons.mp hg with rfl | hg'
     · exact h
     · exact hall g hg'
+
+/-! ## The pinned tree violated the property (witnesses; the defects are repaired by `fix:` commits)
+
+`Steps.Pinned.*` is the behaviour of the code before the repairs; these are the failing inputs the
+check reported on the unrepaired tree. -/
+
+/-- weights `[1, 1, 0]`, population and target 3: the slices held 4 individuals. -/
+theorem C15_pinned_ranges_witness :
+    ¬ ∀ (ws : List Nat) (n : Nat), 0 < ws.sum → (sliceSizes (Pinned.computeRanges ws n n)).sum = n := by
+  intro h
+  exact absurd (h [1, 1, 0] 3 (by decide)) (by decide)
+
+/-- `ElitismStep` given a generator of two individuals, asked for two, yielded none. -/
+theorem C15_pinned_elitism_witness :
+    ¬ ∀ (pop : List Ind) (oneShot : Bool) (k : Nat), k ≤ pop.length → (Pinned.elitism ⟨pop, oneShot, false⟩ k).length = k := by
+  intro h
+  exact absurd (h [⟨0, 1, []⟩, ⟨1, 2, []⟩] true 2 (by decide)) (by decide)
+
+/-- `InjectInitialPopulationWrapper`: one program, target 2 → 3 individuals; no program → exception. -/
+theorem C15_pinned_inject_witness :
+    Pinned.injectCount 1 2 = some 3 ∧ Pinned.injectCount 0 2 = none := by decide
 
 /-! ## Non-vacuity: the hypotheses are satisfiable on non-trivial data -/
 
